@@ -1,4 +1,4 @@
-import InfernoVerif.Props.C12Core
+import InfernoVerif.Lemmas.Persist
 import InfernoVerif.Props.C01
 /-!
 # C12 — checkpoint at any step, restore into another instance, identical future
@@ -23,6 +23,42 @@ open InfernoVerif.Ring
 variable {β : Type}
 
 /-! ## Generic theorems -/
+
+/-- If loading what `s` saved into `t` succeeds (same configuration), the restored target and the
+uninterrupted source produce the same outputs for EVERY continuation and stay in agreement on all
+read fields. -/
+theorem resume_equiv {D In Out : Type} (C : Comp D) (step : C.State → In → C.State × Out)
+    (hres : Resumes C) (hresp : Respects C step) (s t t' : C.State)
+    (hs : C.Inv s) (ht : C.Inv t) (hc : C.sameConfig s t) (hl : C.load (C.save s) t = .ok t')
+    (xs : List In) :
+    (run step t' xs).2 = (run step s xs).2 ∧ C.view (run step t' xs).1 = C.view (run step s xs).1 :=
+  run_resume C step hresp s t' (hres s t t' hs ht hc hl) xs
+
+/-- A component whose `view` is the whole state is respected by every step function. -/
+theorem respects_of_injective {D In Out : Type} (C : Comp D) (hinj : ∀ a b, C.view a = C.view b → a = b)
+    (step : C.State → In → C.State × Out) : Respects C step := by
+  intro s t x h
+  cases hinj s t h
+  exact ⟨rfl, rfl⟩
+
+/-- Composition: a product of components resumes if each does. -/
+theorem compose_resumes {D₁ D₂ : Type} (C₁ : Comp D₁) (C₂ : Comp D₂) (h₁ : Resumes C₁) (h₂ : Resumes C₂) :
+    Resumes (C₁.prod C₂) := by
+  intro s t t' hs ht hc hl
+  change (match C₁.load (C₁.save s.1) t.1, C₂.load (C₂.save s.2) t.2 with
+    | .ok a, .ok b => Except.ok (a, b)
+    | .error e, .ok _ => .error e
+    | .ok _, .error e => .error e
+    | .error e₁, .error e₂ => .error (e₁ ++ e₂)) = .ok t' at hl
+  split at hl <;> try cases hl
+  rename_i a b ha hb
+  show (C₁.view a, C₂.view b) = (C₁.view s.1, C₂.view s.2)
+  rw [h₁ s.1 t.1 a hs.1 ht.1 hc.1 ha, h₂ s.2 t.2 b hs.2 ht.2 hc.2 hb]
+
+/-- `sync` is established by the first update and kept by every later one. -/
+theorem classifier_inv_step {Δ In Out : Type} (derive : Tens β → Δ) (infer : Δ → In → Out)
+    (upd : Tens β → In → Tens β) (s : Clf β Δ) (x : In) :
+    (clfStep derive infer upd s x).1.derived = derive (clfStep derive infer upd s x).1.rates := rfl
 
 
 /-- Checkpoint after an arbitrary prefix `pre` of a run from `s₀`: outputs before the checkpoint
